@@ -449,11 +449,11 @@ func slicesEqual(x, y any) (err error) {
 
 		// Get primitives out of the way
 		var tried bool
-		if tried, err = primitivesEqual(xv, yv); tried {
-			return
+		if tried, err = primitivesEqual(xv, yv); tried || err != nil {
+			continue
 		}
 
-		err = valuesEqual(xv, yv)
+		err = valuesEqual(xv.Interface(), yv.Interface())
 	}
 
 	return
